@@ -184,6 +184,7 @@ def invented_default_replay(_name=None):
 
 def main(tier, write_baseline=False):
     run = Run("C08", tier, "other", checker_cmd=common.checker_cmd("C08", tier))
+    run.confirm_abstracted = (':set_default_doc/',)  # refutations of these exact contracts count only with an input that fails on the real code (report.Run.violation)
     M.RAISE_CTX.update(prop="C08", write=bool(write_baseline))
     run.trusted_base.update(["cddvc E1 (records with presence bits, string VCs)", "z3 5.1"])
     refuted = e1.run_contracts(run, "contracts.C08")
